@@ -213,6 +213,61 @@ def apply (m : Mode) (f : MeanF α) (v : List α) : Option (List α) :=
 
 end MeanF
 
+/-! ### Global::MeanFilter (kernel/global/mean_filter.hpp): the mean filter of a distributed vector.  With a
+communicator and a frequency vector the dot products are the frequency-weighted `triple_dot`s followed by an
+allreduce (the sum over one rank here); there is no solution mean and NO volume check (commented out in the source),
+so a vanishing volume divides by zero. -/
+
+/-- `freq.triple_dot(x, y)`; exact scalars, so the association of the three factors does not matter -/
+def tdotL {α : Type} [Zero α] [Add α] [Mul α] (f x y : List α) : α :=
+  dotL (List.zipWith (fun a b => a * b) f x) y
+
+structure GMeanF (α : Type) where
+  prim : List α
+  dual : List α
+  freq : List α
+  /-- `!freq.empty() && comm != nullptr` -/
+  useFreq : Bool
+  vol : α
+
+namespace GMeanF
+variable {α : Type} [Zero α] [Add α] [Mul α] [Neg α] [Div α] [DecidableEq α]
+
+/-- the weighted dot product of the filter with both size assertions of `dot` / `triple_dot` -/
+def wdot (freq : List α) (useFreq : Bool) (x y : List α) : Option α :=
+  if useFreq then
+    if x.length != freq.length || y.length != freq.length then none else some (tdotL freq x y)
+  else
+    if y.length != x.length then none else some (dotL x y)
+
+def make (comm : Bool) (prim dual freq : List α) : Option (GMeanF α) :=
+  let useFreq := !freq.isEmpty && comm
+  match wdot freq useFreq prim dual with
+  | none => none
+  | some vol => some { prim := prim, dual := dual, freq := freq, useFreq := useFreq, vol := vol }
+
+/-- `integ = <vector, w>; vector.axpy(x, -integ / volume)` -/
+def dotAxpy (f : GMeanF α) (v w x : List α) : Option (List α) :=
+  if f.prim.isEmpty then some v
+  else match wdot f.freq f.useFreq v w with
+    | none => none
+    | some integ =>
+      if f.vol = 0 then none
+      else if v.length != x.length then none
+      else some (axpyL v x ((-integ) / f.vol))
+
+/-- `filter_rhs` = `filter_def` -/
+def filterRhs (f : GMeanF α) (v : List α) : Option (List α) := f.dotAxpy v f.prim f.dual
+/-- `filter_sol` = `filter_cor` -/
+def filterSol (f : GMeanF α) (v : List α) : Option (List α) := f.dotAxpy v f.dual f.prim
+
+def apply (m : Mode) (f : GMeanF α) (v : List α) : Option (List α) :=
+  match m with
+  | .rhs | .defect => f.filterRhs v
+  | .sol | .cor => f.filterSol v
+
+end GMeanF
+
 /-! ### MeanFilterBlocked -/
 
 /-- component `j` of every block -/
